@@ -441,6 +441,8 @@ def check_property(pid, tier="quick", seed=0):
                 if not mine and not builtin and not unl:
                     continue
                 st = r.fn_status.get(name)
+                if st is None and inf.get("bodyless"):
+                    continue   # trait method declaration: a contract without a body carries no obligation of its own
                 if st is None:
                     problems.append(f"function {name} ({inf['path']}) does not appear in the verifier's function breakdown")
                     continue
